@@ -338,7 +338,7 @@ PROPS = {
     },
     "C16": {
         "rules": [lambda prog, tier: copy.run_shallow(prog), lambda prog, tier: copy.run_params(prog), lambda prog, tier: copy.run_strflags(prog),
-                  lambda prog, tier: copy.run_clobber(prog), lambda prog, tier: nzcount.run(prog, shared_eff(prog)), lambda prog, tier: copy.run_fields(prog, shared_eff(prog)), lambda prog, tier: infmap.run(prog), lambda prog, tier: infmap.run_kept(prog),
+                  lambda prog, tier: copy.run_clobber(prog), lambda prog, tier: nzcount.run(prog, shared_eff(prog)), lambda prog, tier: copy.run_fields(prog, shared_eff(prog)), lambda prog, tier: infmap.run(prog), lambda prog, tier: infmap.run_kept(prog), lambda prog, tier: idxclass.run(prog, scope_units=("lib_mpq.c", "qsopt_mpq.c"), rule="R-IDXCLASS"),
                   lambda prog, tier: exact.run(prog, {"COPY": {"roots": ["QScopy_prob_mpq_dbl", "QScopy_prob_mpq_mpf"], "closure": False}},
                                                exceptions={("QScopy_prob_mpq_dbl", "mpq_get_d"): "the conversion to double itself: mpq_get_d truncates to the nearest "
                                                            "double toward zero, within one unit in the last place",
@@ -900,6 +900,10 @@ for _pid in ("C10", "C11"):
     _ADD[_pid]["explanation"] = _ADD[_pid].get("explanation", "") + (
         " (R-PARTDIGIT) no return of the fraction scanner hands back a non-zero count on a path on which the '/' case was entered before any digit "
         "('/5' is no number).")
+_ADD.setdefault("C16", {})
+_ADD["C16"]["explanation"] = _ADD["C16"].get("explanation", "") + (
+    " (R-IDXCLASS, lib / qsopt units) a copy has another internal column layout than its original (QScopy_prob builds rows first): every "
+    "subscript of a problem array in the query and edit functions uses an index of the array's own index space, so original and copy answer alike.")
 _ADD.setdefault("C17", {})
 _ADD["C17"]["explanation"] = _ADD["C17"].get("explanation", "") + (
     " (R-CAPSYNC) a pointer field that is paired with a capacity field (some function allocates it with a computed length and stores that very "
